@@ -45,7 +45,7 @@ TT = 'chainables.tree'
 
 
 def run(ctx: Ctx):
-  for r in (r1, r2, r3, r4, r5, r6, r8, r9, r10, r13, r17, r18, r19, r20, r21):
+  for r in (r1, r2, r3, r4, r5, r6, r8, r9, r10, r13, r17, r18, r19, r20, r21, r22):
     ctx.guard(r)
   from mlmverif.props import c03
   ctx.include('R-C02-7', 'every sliced aggregate sees every slice: the slices of'
@@ -1026,11 +1026,66 @@ def r8(ctx: Ctx):
   ctx.floor(rule, 40, n)
 
 
+def r22(ctx: Ctx):
+  rule = 'R-C02-22'
+  ctx.rule(rule, '"for every slice key it reports exactly the aggregate over the rows belonging to that slice", also for a pipeline'
+           ' that was pickled to a worker: a module-level str / number constant that serves as the DEFAULT of an operator'
+           ' field or parameter (tree.DEFAULT_FILTER, the "filter, do not replace" marker of a slicer) travels inside the'
+           ' pickled operator and comes back as an EQUAL but not identical object. Every comparison against such a constant'
+           ' in the chainables modules uses == / != — an identity test (`is not DEFAULT_FILTER`) is true for every'
+           ' unpickled default slicer, which then REPLACES masked-out rows by the marker string instead of dropping them')
+  repo = ctx.repo
+  mods = [repo.module(x) for x in (TT, TF, TR)]
+  consts = {}
+  for mi in mods:
+    for st in mi.tree.body:
+      if isinstance(st, ast.Assign) and len(st.targets) == 1 and isinstance(st.targets[0], ast.Name) and isinstance(st.value, ast.Constant) \
+          and isinstance(st.value.value, (str, int, float)) and not isinstance(st.value.value, bool):
+        consts[st.targets[0].id] = mi
+  used_as_default = set()
+  for mi in mods:
+    for x in ast.walk(mi.tree):
+      defaults = []
+      if isinstance(x, (ast.FunctionDef, ast.AsyncFunctionDef, ast.Lambda)):
+        defaults = [d for d in x.args.defaults + x.args.kw_defaults if d is not None]
+      elif isinstance(x, ast.AnnAssign) and x.value is not None:
+        defaults = [x.value]
+      for d in defaults:
+        nm = d.attr if isinstance(d, ast.Attribute) else d.id if isinstance(d, ast.Name) else None
+        if nm in consts:
+          used_as_default.add(nm)
+  if not used_as_default:
+    raise AnalysisError(f'{rule}: no module-level constant serves as an operator default any more (DEFAULT_FILTER expected)')
+  n = 0
+  for mi in mods:
+    fns = list(mi.functions.values()) + [m_ for c in mi.classes.values() for m_ in c.methods.values()]
+    for fi in fns:
+      for c in ast.walk(fi.node):
+        if not isinstance(c, ast.Compare):
+          continue
+        for op, right in zip(c.ops, c.comparators):
+          for side in (c.left, right):
+            nm = side.attr if isinstance(side, ast.Attribute) else side.id if isinstance(side, ast.Name) else None
+            if nm in used_as_default:
+              n += 1
+              what = f'{fi.qualname}: `{unparse(c)[:50]}` compares the default marker by value'
+              if isinstance(op, (ast.Is, ast.IsNot)):
+                ctx.fail(rule, fi, what,
+                         f'`{unparse(c)}` tests the IDENTITY of `{nm}` (a {type(consts[nm].tree.body[0]).__name__ and "str/number"} constant that is an'
+                         ' operator default): after a pickle round trip the default is an equal, non-identical object — the test'
+                         ' answers "a replacement value was configured" for every default slicer on a worker', node=c)
+              else:
+                ctx.ok(rule, fi, what, c)
+  ctx.floor(rule, 3, n)
+
+
 from mlmverif.selfcheck import B, OK  # noqa: E402
 
 _T = 'chainables/transform.py'
 _F = 'chainables/tree_fns.py'
 VARIANTS = [
+    B('filter-marker-compared-by-identity', 'chainables/tree.py',
+      "        if replace_false_with != DEFAULT_FILTER:\n          result.append(replace_false_with)", "        if replace_false_with is not DEFAULT_FILTER:\n          result.append(replace_false_with)", 'R-C02-22'),
     B('revert-noop-ignores-slicers', 'chainables/transform.py',
       "        and not self.fns\n        and not self.slicers\n", "        and not self.fns\n", 'R-C02-21'),
     B('revert-fuse-accepts-a-repeated-slicer', 'chainables/transform.py',
